@@ -19,7 +19,7 @@ theorem cli_doc_status :
     Gen.Cli.docBindsEvaluatesDisplays = true ∧ Gen.Cli.docTrue = St.docTrue ∧ Gen.Cli.docFalse = St.docFalse ∧
     Gen.Cli.docPlain = St.docPlain ∧ Gen.Cli.docEvalError = St.docEvalError ∧ Gen.Cli.docEvalErrorDisplaysNone = true ∧
     Gen.Cli.docMalformed = St.docMalformed ∧ Gen.Cli.docMalformedDisplays = false ∧
-    Gen.Cli.docHandlers = ["CELEvalError", "JSONDecodeError"] := by decide
+    ("CELEvalError" ∈ Gen.Cli.docHandlers ∧ "JSONDecodeError" ∈ Gen.Cli.docHandlers ∧ Gen.Cli.docHandlers.length = 2) := by decide
 /-- the NDJSON loop starts at 0 and combines with `max`; slurp hands the whole input to `process_json_doc` once;
 `main` returns the summary -/
 theorem cli_loop_shape :
